@@ -420,6 +420,48 @@ def check_static_initialiser(chk):
                    lambda a: {"bufp": B + 8, "buf_len": 24 if a[0] else 16, "readi": 0, "writei": 0})
 
 
+def check_user_contexts(chk, cfg, mods):
+    """R7.one-consumer-context: the ring has ONE consumer.  Among the library's own users: a function that can run in interrupt
+    context (reachable from the entry points the headers document as interrupt-callable, C06.ISR_ENTRY) must not take bytes out
+    of (ringbuf_get) a ring that main-context code also reads - two consumers race on readi, bytes are delivered twice or the
+    read index jumps over unread data."""
+    from . import C06
+    prog = flow.Program(mods)
+    isr = {}
+    for name in C06.ISR_ENTRY:
+        f = prog.lookup(name)
+        if f is None:
+            continue
+        for g in prog.closure(f):
+            isr.setdefault((g.module.unit, g.name), (g, name))
+
+    def ring_of(c, m):
+        try:
+            return flow.name_field(flow.resolve_ptr(c.args[0], m), m)
+        except Exception:
+            return (None, None)
+    consumers = {}     # ring -> [(fn, call, in_isr_via)]
+    for m in mods:
+        for fn in m.defined_functions():
+            if fn.name.startswith("ringbuf_"):
+                continue
+            for c in fn.calls():
+                if c.callee == "ringbuf_get" and c.args:
+                    consumers.setdefault(ring_of(c, m), []).append((fn, c, isr.get((m.unit, fn.name))))
+    n = 0
+    for ring, users in sorted(consumers.items(), key=lambda kv: str(kv[0])):
+        main = [u for u in users if u[2] is None]
+        for fn, c, via in users:
+            n += 1
+            bad = via is not None and bool(main)
+            chk.ob("R7.one-consumer-context", "%s[%s] ringbuf_get(%s.%s)" % (fn.name, cfg, ring[0], ring[1]), not bad,
+                   "the ring's bytes are taken out in one context only" if not bad else
+                   "%s can run in interrupt context (reachable from %s) and takes bytes out of the ring that %s reads in main context: "
+                   "two consumers race on readi (a byte is delivered twice, or unread bytes are skipped)"
+                   % (fn.name, via[1], main[0][0].name), c.loc, fn.name)
+    chk.expect("R7", "in-tree consumers of a ring", n, 1)
+
+
 def run(chk):
     chk.level = "other"
     chk.explanation = (
@@ -443,5 +485,8 @@ def run(chk):
     chk.not_decided += ["exactly-once, in-order delivery over all interleavings"]
     for cfg in ("default", "noatomics"):
         run_config(chk, cfg)
+    chk.rule("R7", "in-tree users: no interrupt-callable function takes bytes out of a ring that main-context code reads (one consumer)")
+    for cfg in ("default", "noatomics"):
+        check_user_contexts(chk, cfg, build.load_units(build.library_units(), cfg))
     chk.rule("R6", "RINGBUF_VAR_INIT uses each argument as one expression: bufp is the (converted) pointer argument, buf_len the length argument, both indices 0")
     check_static_initialiser(chk)
